@@ -344,7 +344,11 @@ pub(crate) fn rfc1071_checksum(bytes: &[u8]) -> u16 {
             sum += bytes[i + 1] as u32;
         }
     }
-    !((sum >> 16) + sum) as u16
+    // fold the carries until none is left (the first fold may itself carry)
+    while (sum >> 16) != 0 {
+        sum = (sum >> 16) + (sum & 0xffff);
+    }
+    !(sum as u16)
 }
 
 /// Returns [`true`] if the address appears to be globally routable.
